@@ -181,60 +181,7 @@ func runC03(w *World, r *Report) {
 
 	// ---- push-on-every-exit
 	r.Rule("C03.push-on-every-exit", "executor defers recover->task.err and lock;push;updateChan;unlock before doing anything else", 4)
-	d, lit, rv := recoverDefer(executor)
-	if d == nil {
-		r.Fail("C03.push-on-every-exit", "executor deferred hand-off", executor.Pos(), "executor has no deferred literal with recover(): a panicking node loses its completion (the run hangs) or kills the process")
-	} else {
-		// dominates every other call
-		bad := ""
-		instrs(executor, func(in ssa.Instruction) {
-			if c, ok := in.(*ssa.Call); ok {
-				if _, isB := c.Call.Value.(*ssa.Builtin); !isB && !instrDominates(d, c) {
-					bad = calleeFullName(c)
-				}
-			}
-		})
-		r.Check(bad == "", "C03.push-on-every-exit", "executor: defer is the first action", d.Pos(), "no call precedes the defer", "call "+bad+" precedes the hand-off defer")
-		ok, how := taintReachesSink(lit, rv, nil)
-		r.Check(ok, "C03.push-on-every-exit", "executor: panic recorded in task.err", lit.Pos(), how, "recovered panic value is dropped")
-		// on every path: Lock, PushBack(l), updateChan, Unlock in this order
-		isLock := func(in ssa.Instruction) bool { return isMutexOp(in, fMu, "Lock") }
-		isUnlock := func(in ssa.Instruction) bool { return isMutexOp(in, fMu, "Unlock") }
-		isPush := func(in ssa.Instruction) bool {
-			c, ok := in.(ssa.CallInstruction)
-			return ok && calleeFullName(in) == "(*container/list.List).PushBack" && isLoadOfField(c.Common().Args[0], fL)
-		}
-		isUC := func(in ssa.Instruction) bool { return isCallTo(in, updateChan) }
-		seq := []struct {
-			name string
-			p    func(ssa.Instruction) bool
-		}{{"Lock", isLock}, {"PushBack", isPush}, {"updateChan", isUC}, {"Unlock", isUnlock}}
-		good := true
-		det := ""
-		for _, s := range seq {
-			skip, wit := pathQuery{fn: lit, goal: isReturn, avoid: s.p}.exists()
-			if skip {
-				good = false
-				det += s.name + " skipped on path " + wit + "; "
-			}
-		}
-		// order: no path from entry to PushBack avoiding Lock; from PushBack to return avoiding updateChan ...
-		if sk, _ := (pathQuery{fn: lit, goal: isPush, avoid: isLock}).exists(); sk {
-			good, det = false, det+"PushBack before Lock; "
-		}
-		if sk, _ := (pathQuery{fn: lit, goal: isUC, avoid: isPush}).exists(); sk {
-			good, det = false, det+"updateChan before PushBack; "
-		}
-		r.Check(good, "C03.push-on-every-exit", "executor: every exit pushes the finished task and refills the channel", lit.Pos(), "Lock; PushBack; updateChan; Unlock on every path of the deferred literal", "a completed (or panicked) task can be lost: "+det)
-	}
-	// executor is launched only from submit
-	for _, fn := range w.RepoFuncs("compose") {
-		instrs(fn, func(in ssa.Instruction) {
-			if c, ok := in.(ssa.CallInstruction); ok && isCallTo(in, executor) {
-				r.Check(topFunc(fn) == submit, "C03.push-on-every-exit", "executor launched from "+w.fname(fn), c.Pos(), "only submit launches tasks", "executor launched outside submit (outstanding count not maintained)")
-			}
-		})
-	}
+	executorHandoffChecks(w, r, "C03.push-on-every-exit")
 
 	// ---- refill-after-receive
 	r.Rule("C03.refill-after-receive", "waitOne: after <-done every path to return passes Lock; updateChan; Unlock", 1)
@@ -503,4 +450,68 @@ func blockOrGuards(b *ssa.BasicBlock, pred func(g guard) bool) bool {
 		}
 	}
 	return true
+}
+
+// executorHandoffChecks: the executor's deferred hand-off (shared by C03.push-on-every-exit and C01.termination-handoff).
+func executorHandoffChecks(w *World, r *Report, rule string) {
+	fMu := w.Field("compose", "taskManager", "mu")
+	fL := w.Field("compose", "taskManager", "l")
+	executor := w.Fn("compose", "taskManager.executor")
+	submit := w.Fn("compose", "taskManager.submit")
+	updateChan := w.Fn("compose", "taskManager.updateChan")
+	d, lit, rv := recoverDefer(executor)
+	if d == nil {
+		r.Fail(rule, "executor deferred hand-off", executor.Pos(), "executor has no deferred literal with recover(): a panicking node loses its completion (the run hangs) or kills the process")
+	} else {
+		// dominates every other call
+		bad := ""
+		instrs(executor, func(in ssa.Instruction) {
+			if c, ok := in.(*ssa.Call); ok {
+				if _, isB := c.Call.Value.(*ssa.Builtin); !isB && !instrDominates(d, c) {
+					bad = calleeFullName(c)
+				}
+			}
+		})
+		r.Check(bad == "", rule, "executor: defer is the first action", d.Pos(), "no call precedes the defer", "call "+bad+" precedes the hand-off defer")
+		ok, how := taintReachesSink(lit, rv, nil)
+		r.Check(ok, rule, "executor: panic recorded in task.err", lit.Pos(), how, "recovered panic value is dropped")
+		// on every path: Lock, PushBack(l), updateChan, Unlock in this order
+		isLock := func(in ssa.Instruction) bool { return isMutexOp(in, fMu, "Lock") }
+		isUnlock := func(in ssa.Instruction) bool { return isMutexOp(in, fMu, "Unlock") }
+		isPush := func(in ssa.Instruction) bool {
+			c, ok := in.(ssa.CallInstruction)
+			return ok && calleeFullName(in) == "(*container/list.List).PushBack" && isLoadOfField(c.Common().Args[0], fL)
+		}
+		isUC := func(in ssa.Instruction) bool { return isCallTo(in, updateChan) }
+		seq := []struct {
+			name string
+			p    func(ssa.Instruction) bool
+		}{{"Lock", isLock}, {"PushBack", isPush}, {"updateChan", isUC}, {"Unlock", isUnlock}}
+		good := true
+		det := ""
+		for _, s := range seq {
+			skip, wit := pathQuery{fn: lit, goal: isReturn, avoid: s.p}.exists()
+			if skip {
+				good = false
+				det += s.name + " skipped on path " + wit + "; "
+			}
+		}
+		// order: no path from entry to PushBack avoiding Lock; from PushBack to return avoiding updateChan ...
+		if sk, _ := (pathQuery{fn: lit, goal: isPush, avoid: isLock}).exists(); sk {
+			good, det = false, det+"PushBack before Lock; "
+		}
+		if sk, _ := (pathQuery{fn: lit, goal: isUC, avoid: isPush}).exists(); sk {
+			good, det = false, det+"updateChan before PushBack; "
+		}
+		r.Check(good, rule, "executor: every exit pushes the finished task and refills the channel", lit.Pos(), "Lock; PushBack; updateChan; Unlock on every path of the deferred literal", "a completed (or panicked) task can be lost: "+det)
+	}
+	// executor is launched only from submit
+	for _, fn := range w.RepoFuncs("compose") {
+		instrs(fn, func(in ssa.Instruction) {
+			if c, ok := in.(ssa.CallInstruction); ok && isCallTo(in, executor) {
+				r.Check(topFunc(fn) == submit, rule, "executor launched from "+w.fname(fn), c.Pos(), "only submit launches tasks", "executor launched outside submit (outstanding count not maintained)")
+			}
+		})
+	}
+
 }
